@@ -1131,8 +1131,12 @@ impl W {
                     self.violate("C13", "continue", "non-trampoline HTLC not answered with continue".into(), format!("{} => {}", name, short_resp(rs)));
                     self.violate("C10", "classification", "HTLC without a usable signed invoice was treated as trampoline".into(), format!("{} => {}", name, short_resp(rs)));
                 }
-                if polls != 1 {
-                    self.violate("C13", "no-wait", "non-trampoline HTLC answered only after waiting on an external event".into(), format!("{} polls {}", name, polls));
+                // "without waiting on any external event": the answer must come within the delivery's own
+                // transition, before the environment does anything else (how often the future is polled is
+                // the implementation's business)
+                let _ = polls;
+                if !matches!(ev, Ev::Deliver(d) if *d == t) {
+                    self.violate("C13", "no-wait", "non-trampoline HTLC answered only after waiting on an external event".into(), format!("{} answered during {:?}", name, ev));
                 }
             }
             Class::SelfHintRejected => {
@@ -1960,23 +1964,26 @@ impl Model for W {
 }
 
 impl W {
-    /// Hand one request to the real `handle_htlc` and poll it exactly once.
-    /// Ok(Some(resp)) = ready on first poll; Ok(None) = pending; Err = panic message.
+    /// Hand one request to the real `handle_htlc`, run the plugin to quiescence without any environment event.
+    /// Ok(Some(resp)) = answered at once; Ok(None) = still waiting on something; Err = panic message.
     pub fn poll_htlc_once(&mut self, req: crate::messages::HtlcAcceptedRequest) -> Result<Option<HtlcAcceptedResponse>, String> {
         let inc = self.inc.as_mut().unwrap();
         let mgr = Arc::clone(&inc.mgr);
-        let _g = inc.rt.enter();
-        let r = std::panic::catch_unwind(std::panic::AssertUnwindSafe(|| {
-            let mut fut = Box::pin(async move { mgr.handle_htlc(&req).await });
-            let waker = futures::task::noop_waker();
-            let mut cx = Context::from_waker(&waker);
-            match fut.as_mut().poll(&mut cx) {
-                Poll::Ready(r) => Some(r),
-                Poll::Pending => None,
+        let h = {
+            let _g = inc.rt.enter();
+            tokio::spawn(async move { mgr.handle_htlc(&req).await })
+        };
+        inc.rt.block_on(sched::quiesce());
+        if !h.is_finished() {
+            h.abort();
+            sched::take_panics();
+            return Ok(None);
+        }
+        match inc.rt.block_on(h) {
+            Ok(r) => {
+                sched::take_panics();
+                Ok(Some(r))
             }
-        }));
-        match r {
-            Ok(v) => Ok(v),
             Err(_) => {
                 let p = sched::take_panics();
                 Err(p.last().cloned().unwrap_or_else(|| "panic".into()).replace('\n', " | "))
